@@ -152,6 +152,22 @@ def scenario(seed, buffered_mode):
         return None, trace
 
 
+def remove_in_buffer_check():
+    """a job removed and re-created inside one buffered block starts with an empty document"""
+    import signac
+    with project_scratch() as p:
+        with signac.buffered():
+            j = p.open_job({"r": 1})
+            j.doc["old"] = 1
+            j.remove()
+            j.doc["new"] = 2
+            inside = norm(j.doc())
+        after = on_disk(j.fn(j.FN_DOCUMENT))
+        if inside != {"new": 2} or after != {"new": 2}:
+            return f"document of a job removed and re-created inside signac.buffered(): read back {inside}, file {after}, a plain dict gives {{'new': 2}}"
+    return None
+
+
 def run(tier="quick", seed=0):
     b = Budget(12 if tier == "quick" else 240)
     evals, distinct, failures, samples = 0, set(), [], []
@@ -172,6 +188,10 @@ def run(tier="quick", seed=0):
             samples.append(trace[:6])
         if bad:
             failures.append({"key": "doc:" + mode, "description": bad, "script": script_header() + f"sys.path.insert(0, '/verif')\nfrom pybound.c05 import scenario\nbad, trace = scenario({s}, {mode!r})\nassert not bad, bad\n"})
+    rb = remove_in_buffer_check()
+    evals += 1
+    if rb:
+        failures.append({"key": "doc:remove-inside-buffer", "description": rb, "script": script_header() + "sys.path.insert(0, '/verif')\nfrom pybound.c05 import remove_in_buffer_check\nr = remove_in_buffer_check()\nassert not r, r\n"})
     from .fsharness import KNOWN_SEEN, probe_known
     probe_known()
     for k in sorted(KNOWN_SEEN):
